@@ -63,7 +63,7 @@ func (e Edit) Describe() string {
 // on byte-order neighbours. All rdata differ from the item alphabet's.
 func AddEdits(t string) []Edit {
 	mk := func(id, why string, l Line) Edit {
-		return Edit{ID: "add:" + id + "@" + t, Kind: "add", Tag: t, Why: why, line: l}
+		return Edit{ID: "add:" + id + "@" + LocSlug(t), Kind: "add", Tag: t, Why: why, line: l}
 	}
 	quick := map[string]bool{"a-www": true, "ns-apex": true, "ns-deleg": true, "ns-www": true, "zone-sub": true,
 		"a-glue": true, "wild-apex": true, "a-a": true}
@@ -87,10 +87,31 @@ func AddEdits(t string) []Edit {
 		mk("a-mx1", "address of the untagged MX's host", A("mx1.mx.example.com", "198.51.100.8", "300", t, "")),
 	}
 	for i := range all {
-		id := strings.TrimSuffix(strings.TrimPrefix(all[i].ID, "add:"), "@"+t)
+		id := strings.TrimSuffix(strings.TrimPrefix(all[i].ID, "add:"), "@"+LocSlug(t))
 		all[i].Quick = quick[id]
 	}
 	return all
+}
+
+// XAddEdits is the part of AddEdits applied with a tag of XLocations: a location
+// id is an opaque pair of bytes, so a line tagged AA, \341\341, \000\001 or
+// \003\054 is foreign to the clients of aa (and to every other client but the
+// one item xloc puts into that very location). Address at a queried leaf, NS and
+// SOA at the apex, wildcard at the apex, nested zone, glue address; the first,
+// second and fourth in the quick tier.
+func XAddEdits(t string) []Edit {
+	keep := map[string]bool{"a-www": true, "ns-apex": true, "soa-apex": false, "wild-apex": true, "zone-sub": false, "a-glue": false}
+	var out []Edit
+	for _, e := range AddEdits(t) {
+		id := strings.TrimSuffix(strings.TrimPrefix(e.ID, "add:"), "@"+LocSlug(t))
+		q, ok := keep[id]
+		if !ok {
+			continue
+		}
+		e.Quick = q
+		out = append(out, e)
+	}
+	return out
 }
 
 // MapEdits adds one '%' line to a map that no name of any file selects: b1
@@ -116,7 +137,7 @@ func slug(l Line) string {
 	if owner == "" {
 		owner = "."
 	}
-	return fmt.Sprintf("%c%s@%s", l.Text[0], owner, l.Loc)
+	return fmt.Sprintf("%c%s@%s", l.Text[0], owner, LocSlug(l.Loc))
 }
 
 // LineEdits derives, from the tagged lines a base file already holds, the
